@@ -101,7 +101,7 @@ impl DeletionQuery {
                     deletion_query.updated_nodes_previous_date.push(node.mdate);
                     //the new version is dated after the version it replaces, whatever the clock of this device
                     node.mdate = if node.mdate >= date {
-                        node.mdate + 1
+                        node.mdate.saturating_add(1)
                     } else {
                         date
                     };
